@@ -1,5 +1,5 @@
 """Claim table from which MANIFEST.json is generated (tools/gen_manifest.py)."""
-TECH = "contract-based deductive verification: VCs generated from the real functions' ASTs (pyvc), discharged by z3"
+TECH = "contract-based deductive verification: VCs generated from the real functions' ASTs (pyvc), discharged by z3 / cvc5 / an exact field normaliser (and the Lean 4 kernel for two shape-independent lemmas, C05 and C11)"
 COMMON_NOTE = ("Trusted: the pyvc interpreter/VC generator, z3, CPython's ast; Python semantics assumptions A1-A9 (ints exact, floats as reals, dict order as ghost enumeration, modelled exception sources); "
                "bounded stand-ins (native runs of the same contracts on seeded inputs) are reported separately and never counted as proved. ")
 
@@ -76,6 +76,29 @@ CLAIMS.update({
     "C20": _c("Power-of-ten renderers proved on symbolic exponent strings and exhaustively for all exponents -330..330; _number_to_X plumbing (split once at 'e', unit after separator, uncertainty routed to _float_str_w_uncert with converted magnitudes); roman() verified on its whole domain 1..3999; reaction parameter rendering. %g and _float_str_w_uncert numerics: assumed (5.7) + bounded stand-in.",
               "'%.Ng' is an assumed contract (C99 grammar, at most one 'e')."),
 })
+
+ADDENDA = {
+    "C01": "Added after review/seeding: stripping and the three refusal reasons of _formula_to_parts as obligations, argument forwarding of every helper, the middle-dot hydrate branch, hand-written examples through the real grammar, no state between parses, subscripts of any length (F-C01b fixed).",
+    "C02": "Data obligations on the real solvers: 11- and 12-species reactions in the ILP mode, four/eight-decimal and large-denominator compositions, no state between calls, and positivity-feasibility of default-mode answers (known finding F-C02c: two fixed inputs).",
+    "C03": "Added: permuted substance order, MassAction-wrapped constants with `variables`, a system without reactions (F-C03b fixed), array-valued and unit-carrying concentrations (inputs not modified, no shared result objects).",
+    "C04": "Added: names are the substance KEYS (F-C04a fixed), _create_odesys interpreted with the caller's symbols (plain-dict order), constants namespace vs substitutions, active (expression) substitutions, unit registry with named + numeric constants and a second-order step, rebuild after re-assigning a constant; invariants re-derived from the property (none with a feed: F-C05a fixed).",
+    "C05": "Added: the reported vectors against the REAL right-hand side of get_odesys for formula-defined ions; Lean lemma invariant_of_balanced for any numbers of reactions/substances (checked on every run); vectors follow the current substance order; data obligations pin two known findings (F-C05b circular elimination, F-C05c float-exact refusal of a reaction balanced in the decimals as written).",
+    "C06": "Added: the step is as large as safety allows, bounds/rhs are those of the given state (also on a second call), unit-registry input/output callbacks of get_odesys under generic units (same physical value in the requested units), fixed texts to right-hand side.",
+    "C07": "Added: all 12 row-reduction configurations through the sympy path at exact equilibrium states (independent system: pass; linearly dependent equilibria with rref_equil=True: known finding F-C07a), square batches, constants of the current call.",
+    "C08": "Added: _get_rc_interval / equilibrium_residual of the single-equilibrium solver (bracket contains 0, every coordinate inside keeps concentrations non-negative, ends tight; F-C08c fixed), switch condition follows a changed constant, species without elemental bound, nan (F-C08d fixed).",
+    "C09": "Added: scaled dimensionless targets for plain numbers/lists/arrays (F-C09c fixed), rescale (F-C09d fixed), real-package helpers incl. polyfit keywords (F-C09e fixed), Backend with several arguments, registries edited in place; the assumed contract for `quantities` is now validated differentially (1400 seeded random expressions) after it was found to deviate from the package on comparisons with bare numbers.",
+    "C10": "Added: argument dimensions derived from the formulas for every order (F-C10c fixed), end-to-end parameter units and physical rates on the real package in three registries, registry edited in place; known finding F-C10d (wrong-dimension constants wrapped in rate expressions / substitutions are not checked).",
+    "C11": "Added: Lean lemmas nu_eq_combination / const_eq_product_of_powers (induction over histories, checked on every run), composed expressions on the real objects incl. a species on both sides of an operand, a non-trivial cancel layout, eliminate for all pairs in [-12,12]^2 in the contract.",
+    "C12": "Added: unknown keys refused for every form of the allowed keys (F-C12c fixed); known finding F-C12b (named reactions/systems do not survive print -> parse).",
+    "C13": "Added: nothing remembered between constructions, arguments (phases) not modified.",
+    "C14": "Added: no state between masses (shared data dict, the caller's composition mapping: F-C14a fixed, a caller editing a freshly parsed composition).",
+    "C15": "Added: fractional coefficients in categorize_substances (data).",
+    "C16": "Added: Radiolytic field order as given, values given as arrays/quantities are not modified.",
+    "C17": "Added: numpy time axes are not modified, same curve on a second evaluation, start value with t0.",
+    "C19": "Added: water_density reference temperature T0 (value and warning depend on T - T0); the permittivity silence clause restated from the property.",
+}
+for _k, _v in ADDENDA.items():
+    CLAIMS[_k]["text"] = CLAIMS[_k]["text"] + " " + _v
 
 _PENDING = "contracts for this property are not built yet in this round (work in progress; see DESIGN.md section 7 for the plan)"
 NOT_APPLICABLE = {p: _PENDING for p in ["C%02d" % i for i in range(1, 21)] if p not in CLAIMS}
